@@ -102,7 +102,12 @@ def recv_stream(E):
     yields = []
     E.loop_specs[(RECV, 0)] = stream_spec(E, X0, dec, yields)
     g = E.call(E.getattr(parser, 'receive_data'), [d])
-    E.run_generator(g, lambda v: yields.append(v))
+    try:
+        E.run_generator(g, lambda v: yields.append(v))
+    except PyExc as e:
+        E.cover('escaped')
+        E.prove('decoder:no_exception_escapes_the_frame_generator[stream]', False)
+        return
     # generator finished (guard false, or incomplete record)
     E.cover('finished')
     ctx = E.path.ghost['loops'][(RECV, 0)]
@@ -177,7 +182,12 @@ def recv_message(E):
     yields = []
     E.loop_specs[(RECV, 0)] = message_spec(E, d, dec, yields)
     g = E.call(E.getattr(parser, 'receive_data'), [d, 0])
-    E.run_generator(g, lambda v: yields.append(v))
+    try:
+        E.run_generator(g, lambda v: yields.append(v))
+    except PyExc as e:
+        E.cover('escaped')
+        E.prove('decoder:no_exception_escapes_the_frame_generator[message]', False)
+        return
     E.cover('finished')
     ctx = E.path.ghost['loops'][(RECV, 0)]
     new_calls = dec.calls[ctx.ghost['ncalls']:]
